@@ -276,6 +276,12 @@ func (s *sessionController) syncSessionExts() error {
 			if s.sessionTicketExt == nil {
 				// If there isn't a user-provided session ticket extension, use the one from the spec
 				s.sessionTicketExt = ext
+				if s.state == NoSession && ext.IsInitialized() {
+					// The spec's extension already carries a ticket (e.g. copied from a capture): treat
+					// it like one set through SetSessionTicketExtension instead of loading a cached
+					// session into it later, which the initialization guard answers with a panic.
+					s.state = SessionTicketExtInitialized
+				}
 			} else {
 				// Otherwise, replace the one in the extension list with the user-provided one
 				s.uconnRef.Extensions[i] = s.sessionTicketExt
@@ -286,6 +292,10 @@ func (s *sessionController) syncSessionExts() error {
 			if s.pskExtension == nil {
 				// If there isn't a user-provided psk extension, use the one from the spec
 				s.pskExtension = ext
+				if s.state == NoSession && ext.IsInitialized() {
+					// Same as above for a psk extension that already carries identities and binders.
+					s.state = PskExtInitialized
+				}
 			} else {
 				// Otherwise, replace the one in the extension list with the user-provided one
 				s.uconnRef.Extensions[i] = s.pskExtension
